@@ -293,7 +293,7 @@ def m_length_blowup(r, lang, b):
         n = r.choice([100, 3570, 3572, 20000])
         return f"{kind}:{n}", b + asg % (b"0x" + b"F" * n)
     if kind == "many-lines":
-        n = r.choice([300, 600, 1000] if BIG else [300, 600, 900])   # kept small: the duplicate-code rule is cubic in the line count (2500 lines: > 150 CPU s)
+        n = r.choice([300, 600, 1000] if BIG else [200, 400, 600])   # kept small: the duplicate-code rule is cubic in the line count (2500 lines: > 150 CPU s)
         return f"{kind}:{n}", b + (asg % b"1") * n
     if kind == "many-distinct-lines":
         n = r.choice([2000, 20000])
